@@ -123,8 +123,8 @@ class AstToSqlVisitor(visitor.NodeVisitor):
             intervals.append(f"INTERVAL '{seconds}' SECOND")
 
         if len(intervals) == 0:
-            # Shouldn't occur but whatever
-            return ""
+            # A duration without any components (e.g. duration'P') has length zero:
+            return f"{sign}INTERVAL '0' SECOND"
         if len(intervals) == 1:
             return f"{sign}{intervals[0]}"
         if len(intervals) > 1:
